@@ -210,6 +210,29 @@ Definition rcase_ok (c : rcase) : bool :=
   | (None, _) => false
   end.
 
+(* ---- range loops that bind no variable (`for range m`, `for _, _ = range m`): the body cannot depend on the
+   entry, it is a list of operations per iteration number; observed: the number of iterations and the
+   contents afterwards.  The emitted loop is the same one (range_over). *)
+Record icase := { i_t : kty; i_nts : list (Z * str); i_pool : list val; i_init : list (N * Z);
+                  i_body : list (list iop); i_iters : N; i_final : list (N * Z) }.
+
+Definition idx_body (nts : Z -> str) (t : kty) (tbi : list (list op)) (s : st * nat) (key : jskey) (e : entry)
+  : (st * nat) * list (mop jskey entry) :=
+  let (s0, n) := s in
+  let (ms, s') := ops_to_mops nts c15_iface_by_id t (nth n tbi []) s0 in ((s', S n), ms).
+
+Definition icase_ok (c : icase) : bool :=
+  let nts := nts_of (i_nts c) in
+  let p := i_pool c in
+  match make_map nts c15_iface_by_id (i_t c) (map (fun kv => (pool_get p (fst kv), snd kv)) (i_init c)) [] {| ctr := 0; ids := [] |} with
+  | (Some jm, s) =>
+      let tbi := map (map (op_of p)) (i_body c) in
+      let '(ev, jm', _) := range_over jskey_eqb (idx_body nts (i_t c) tbi) jm (s, O) in
+      N.eqb (N.of_nat (length (filter (fun e => match e with EVisit _ _ => true | _ => false end) ev))) (i_iters c) &&
+      list_eqb (ent_ok p) (map snd (m_live jm')) (i_final c)
+  | (None, _) => false
+  end.
+
 Section Mis.
 Context {A : Type} (ok : A -> bool).
 Fixpoint mismatches_from (i : N) (cs : list A) : list N :=
@@ -221,4 +244,5 @@ End Mis.
 
 Definition mismatches_h (cs : list hcase) : list N := mismatches_from hcase_ok 0 cs.
 Definition mismatches_r (cs : list rcase) : list N := mismatches_from rcase_ok 0 cs.
+Definition mismatches_i (cs : list icase) : list N := mismatches_from icase_ok 0 cs.
 
